@@ -396,8 +396,14 @@ static void build_ctx(Ctx& C, const System& sys, int tier) {
     if (sys.zero_families) fams = sys.zero_families(names);
     else {
       std::vector<std::string> amp, frq;
-      for (auto& nm : names) { size_t u = nm.rfind('_'); if (u == std::string::npos || u == 0 || nm.compare(0, 2, "a_") == 0) continue; std::string f = "a_" + nm.substr(0, u) + nm.substr(u + 1); if (std::find(names.begin(), names.end(), f) != names.end()) { amp.push_back(nm); frq.push_back(f); } }
-      if (!amp.empty()) { fams.push_back(amp); fams.push_back(frq); }
+      for (auto& nm : names) {
+        size_t u = nm.rfind('_'); if (u == std::string::npos || u == 0 || nm.compare(0, 2, "a_") == 0) continue;
+        std::string squeezed; for (char ch : nm) if (ch != '_') squeezed.push_back(ch);
+        for (const std::string& f : {"a_" + nm.substr(0, u) + nm.substr(u + 1), "a_" + nm, "a_" + squeezed})  // rho_x -> a_rhox, rho_N_x -> a_rho_N_x, nu_sa_x -> a_nusax
+          if (std::find(names.begin(), names.end(), f) != names.end()) { amp.push_back(nm); frq.push_back(f); break; }
+      }
+      if (amp.size() >= 3) { fams.push_back(amp); fams.push_back(frq); }
+      else if (!sys.alphabet && names.size() <= 24) fams.push_back(names);  // small systems without the Roy naming scheme: every zeroable parameter is one family
     }
     for (auto& fam : fams) {
       std::vector<int> F;
